@@ -180,6 +180,7 @@ func TestC10Session(t *testing.T) {
 		every := rapid.IntRange(1, 6).Draw(rt, "every")
 		nChanges := rapid.IntRange(1, 6).Draw(rt, "nChanges")
 		accepted, refused, shrinks, parityAfterShrink := 0, 0, 0, 0
+		oobCalls := 0
 		rapid.SyncTest(rt, func(rt *rapid.T) {
 			s := sim.NewSessSim(cfg.ClockOff, cfg.EntropySeed)
 			p, err := sim.NewPair(s, cfg, app)
@@ -279,8 +280,34 @@ func TestC10Session(t *testing.T) {
 			// acknowledgements are back and the sender's buffers are empty: a
 			// shrink is only accepted on a quiet connection
 			changeAt := int64(-1)
+			// out-of-band packets obey the MTU in force as well: the largest
+			// payload the session offers must go out (as a datagram of exactly the
+			// MTU), anything longer must be refused, not sent oversized
+			sendOOB := func() {
+				e := rapid.IntRange(0, 1).Draw(rt, "oobEnd")
+				x := p.Sess[e]
+				if x == nil || cfg.FEC[e][0] == 0 {
+					return
+				}
+				maxN := x.GetOOBMaxSize()
+				for _, extra := range []int{0, rapid.IntRange(1, 12).Draw(rt, "oobExtra")} {
+					n := maxN + extra
+					if n < 0 {
+						continue
+					}
+					err := x.SendOOB(make([]byte, n))
+					oobCalls++
+					s.Quiesce()
+					if extra == 0 && err != nil {
+						s.Fail("SendOOB of GetOOBMaxSize() = %d bytes refused at end %d: %v (session MTU %d)", n, e, err, model[e])
+					}
+				}
+			}
 			p.OnRead = func(r, n int, err error) {
 				reads++
+				if reads%3 == 1 && oobCalls < 40 {
+					sendOOB()
+				}
 				if reads%every == 0 && changes < nChanges {
 					if idleGaps && changeAt < 0 {
 						changeAt = s.Now() + int64(rapid.SampledFrom([]int{150, 300, 450}).Draw(rt, "changeDelay"))
@@ -332,6 +359,9 @@ func TestC10Session(t *testing.T) {
 		}
 		if idleGaps {
 			cl = append(cl, "idle_gaps_beyond_fec_continuity_limit")
+		}
+		if oobCalls > 0 {
+			cl = append(cl, "oob_at_and_beyond_the_size_limit")
 		}
 		for i := 0; i < parityAfterShrink; i++ {
 			rec.Exclude(c10KeyParity)
